@@ -39,7 +39,7 @@ def fmt_local(m):
     return (EPOCH + timedelta(minutes=m)).strftime("%Y%m%dT%H%M%S")
 
 
-def render_zone(z, tzid, with_names=True, with_x=False):
+def render_zone(z, tzid, with_names=True, with_x=False, rdate_order=0):
     out = ["BEGIN:VTIMEZONE", f"TZID:{tzid}"]
     if with_x:
         # non-standard properties as exported by common producers; they do not change the definition
@@ -55,7 +55,12 @@ def render_zone(z, tzid, with_names=True, with_x=False):
             out.append(f"TZNAME:{o['name']}")
         r = o["rec"]
         if r["k"] == "rdate" and r["set"]:
-            out.append("RDATE:" + ",".join(fmt_local(x) for x in sorted(r["set"])))
+            # the order in which a value list is written carries no meaning: ascending, descending, or one property per value
+            vals = sorted(r["set"], reverse=(rdate_order == 1))
+            if rdate_order == 2 and len(vals) > 1:
+                out += ["RDATE:" + fmt_local(x) for x in reversed(vals)]
+            else:
+                out.append("RDATE:" + ",".join(fmt_local(x) for x in vals))
         elif r["k"] == "yearly":
             rule = f"RRULE:FREQ=YEARLY;BYMONTH={r['m']};BYDAY={r['n']}{WD[r['w']]}"
             if r["endk"] == "count":
@@ -114,12 +119,17 @@ def run(ctx: Ctx):
     try:
         for prov in ("zoneinfo", "pytz"):
             tzp.use(prov)
-            for zi, v in enumerate(zones):
+            # zones with a multi-valued RDATE are replayed under every writing order of that list
+            jobs = []
+            for zi0, v0 in enumerate(zones):
+                multi = any(o["rec"]["k"] == "rdate" and len(o["rec"]["set"]) > 1 for o in v0["z"])
+                jobs += [(zi0, v0, ro) for ro in ((0, 1, 2) if multi else (zi0 % 3,))]
+            for zi, v, rdate_order in jobs:
                 with_x = zi % 3 == 1
                 # every fourth zone has an id that needs TEXT escaping on the wire (comma, semicolon, backslash)
                 tzid_wire = f"Verif/Zone-{zi}" if zi % 4 != 2 else f"Verif\\, Zone\\; {zi} \\\\ x"
-                text = render_zone(v["z"], tzid_wire, with_x=with_x)
-                case = {"zone": v["z"], "provider": prov, "with_x": with_x}
+                text = render_zone(v["z"], tzid_wire, with_x=with_x, rdate_order=rdate_order)
+                case = {"zone": v["z"], "provider": prov, "with_x": with_x, "rdate_order": rdate_order}
                 try:
                     comp = Timezone.from_ical(text)
                     tz = comp.to_tz(tzp, lookup_tzid=False)
